@@ -424,10 +424,8 @@ def part_dispatch(ctx, model_ok):
 
 
 def run(ctx):
-    missing = [f for f in COQ_FILES if not (COQ / f).exists()]
-    files = [f for f in COQ_FILES if f not in missing]
     t = time.time()
-    b = ctx.coq_build(files)
+    b = ctx.coq_build(COQ_FILES)
     ctx.log(f"coq build: {time.time() - t:.1f}s ok={b['ok']}")
     model_ok = all((COQ / f).with_suffix(".vo").exists() for f in ("C07/Jumptable.v", "C07/Dispatch.v", "C07/Harness.v"))
     if not b["ok"] and any(x in b.get("file", "") for x in ("Jumptable.v", "Dispatch.v", "Harness.v")) and "Proofs" not in b.get("file", ""):
